@@ -393,7 +393,7 @@ def oracle(ck, tier, deep):
             ck.violation(dict(site="anisotropy_parameter", clause="exception"), dict(beta=beta, A=A), f"{type(e).__name__}: {e}")
             continue
         if not (abs(b - beta) <= 1e-6 and abs(a - A) <= 1e-6 * A):
-            ck.violation(dict(site="anisotropy_parameter", clause="beta"), dict(beta=beta, A=A, n=nth, theta_ranges=tr, mode=mode),
+            ck.violation(dict(site="anisotropy_parameter", clause="beta"), dict(beta=beta, A=A, n=nth, theta_ranges=tr, mode=mode, theta=theta.tolist()),
                          f"fitted (beta, A) = ({b}, {a}) for a noiseless curve with ({beta}, {A}), mode={mode}")
 
 
